@@ -14,6 +14,7 @@ import AnyVecModel.Proofs.KernelClear
 import AnyVecModel.Proofs.KernelConsume
 import AnyVecModel.Proofs.KernelApiOps
 import AnyVecModel.Proofs.KernelCopyBytes
+import AnyVecModel.Props.Refine
 namespace AnyVec
 namespace C01
 open World
@@ -292,6 +293,26 @@ theorem copy_bytes_is_the_source (m : Mem) (size src dst n : Nat) :
     copyBytes m size src dst n =
       KernelTie.runB m src dst n (Gen.Kernel.copy_bytes_prog (size * n) (decide (dst ≤ src)) false) :=
   KernelTie.copy_bytes_tie m size src dst n
+
+/-! ### refinement of the abstract vector over whole histories -/
+
+/-- **C01 as a refinement (Props/Refine.lean)**: from any world satisfying the invariant in which vector `v` shows
+the items of an abstract `Vec` (`Refine.Rel`; every fault-free reachable world does, `Refine.rel_of_reach`), every
+sequence - of any length, with any indices - of erased and typed `push` / `insert`, of `pop` / `remove` /
+`swap_remove` whose handle is dropped, and of `clear` leads to a world that shows exactly what the abstract vector
+shows after the same sequence (`Spec.Steps`: append, `insertIdx`, drop the last, `eraseIdx`, overwrite-with-last and
+shrink, empty; out-of-range calls change nothing), where the abstract side may refuse an operation that needs room
+only like the storage does (`Refine.push_with_room`: with `len < capacity` a push is never refused). -/
+theorem history_refines_vec (cfg : Cfg) (v ty : Nat) (ops : List Refine.VOp) (w : World) (s : Refine.Spec)
+    (h : Refine.Rel v ty w s) :
+    ∃ s', Refine.Spec.Steps s ops s' ∧ Refine.Rel v ty (Refine.runOps cfg v ty w ops) s' :=
+  Refine.history_refines cfg v ty ops w s h
+
+/-- … starting from wherever a history of core operations under arbitrary fault injection has led -/
+theorem reachable_worlds_are_related (cfg : Cfg) (w : World) (hr : Hist.Reach cfg w) (hf : w.fault = none) (v : Nat)
+    (d : VecSt) (hv : w.vecs[v]? = some d) (hl : d.live = true) :
+    ∃ items, Refine.Rel v d.ty w ⟨items, w.created⟩ :=
+  Refine.rel_of_reach cfg w hr hf v d hv hl
 
 end C01
 end AnyVec
